@@ -286,3 +286,90 @@ def _bip38_body_consts():
 EXTRA.append(_bip38_body_consts)
 TABLE.append(("secp256k1_order", "bip_utils/ecc/secp256k1/secp256k1_const.py", "Secp256k1Const", "CURVE_ORDER", "N",
               lambda v: int(v)))
+
+
+# ---- C20: Electrum / brainwallet / SPL token constants
+BWA = "bip_utils/brainwallet/brainwallet_algo.py"
+EL2 = "bip_utils/electrum/electrum_v2.py"
+ED_K = "bip_utils/ecc/ed25519/ed25519_keys.py"
+TABLE.extend([
+    ("spl_def_program_id", SPL, "SplTokenConst", "DEF_PROGRAM_ID", "str", None),
+    ("spl_def_token_program_id", SPL, "SplTokenConst", "DEF_TOKEN_PROGRAM_ID", "str", None),
+    ("spl_pda_marker", SPL, "SplTokenConst", "PDA_MARKER", "bytes", None),
+    ("spl_bump_max", SPL, "SplTokenConst", "SEED_BUMP_MAX_VAL", "N", None),
+    ("spl_seeds_max_num", SPL, "SplTokenConst", "SEEDS_MAX_NUM", "nat", None),
+    ("ed25519_pub_len", ED_K, "Ed25519KeysConst", "PUB_KEY_BYTE_LEN", "nat", None),
+    ("ed25519_pub_prefix", ED_K, "Ed25519KeysConst", "PUB_KEY_PREFIX", "bytes", None),
+    ("bw_pbkdf2_key_len", BWA, "BrainwalletAlgoConst", "PBKDF2_HMAC_SHA512_KEY_LEN", "N", None),
+    ("bw_pbkdf2_def_itr", BWA, "BrainwalletAlgoConst", "PBKDF2_HMAC_SHA512_DEF_ITR_NUM", "N", None),
+    ("bw_scrypt_key_len", BWA, "BrainwalletAlgoConst", "SCRYPT_KEY_LEN", "N", None),
+    ("bw_scrypt_def_n", BWA, "BrainwalletAlgoConst", "SCRYPT_DEF_N", "N", None),
+    ("bw_scrypt_def_p", BWA, "BrainwalletAlgoConst", "SCRYPT_DEF_P", "N", None),
+    ("bw_scrypt_def_r", BWA, "BrainwalletAlgoConst", "SCRYPT_DEF_R", "N", None),
+])
+
+
+def _fstring_shape(relpath, cls, func):
+    """the single f-string in <cls>.<func> as a list of ('lit', text) / ('var', name)"""
+    fn = find_func(relpath, cls, func)
+    js = [n for n in ast.walk(fn) if isinstance(n, ast.JoinedStr)]
+    if len(js) != 1:
+        fail(f"{relpath}: {cls}.{func}: expected exactly one f-string, found {len(js)}")
+    out = []
+    for v in js[0].values:
+        if isinstance(v, ast.Constant) and isinstance(v.value, str):
+            out.append(("lit", v.value))
+        elif isinstance(v, ast.FormattedValue) and isinstance(v.value, ast.Name) and v.conversion == -1 \
+                and v.format_spec is None:
+            out.append(("var", v.value.id))
+        else:
+            fail(f"{relpath}: {cls}.{func}: unsupported f-string part {ast.dump(v)[:100]}")
+    return out
+
+
+def _electrum_consts():
+    out = []
+    # ElectrumV1.__GetSequence: f"{x}:{y}:"
+    sh = _fstring_shape(EL1, "ElectrumV1", "__GetSequence")
+    if [k for k, _ in sh] != ["var", "lit", "var", "lit"] or sh[1][1] != sh[3][1] or \
+            {sh[0][1], sh[2][1]} != {"addr_idx", "change_idx"}:
+        fail(f"{EL1}: ElectrumV1.__GetSequence: unexpected f-string shape {sh}")
+    out.append("Definition electrum_v1_seq_addr_first : bool := %s." % ("true" if sh[0][1] == "addr_idx" else "false"))
+    out.append("Definition electrum_v1_seq_sep : list N := %s." % coq_codes(sh[1][1]))
+    # ElectrumV2Standard.__DeriveKey: f"m/{a}/{b}", ElectrumV2Segwit.__DeriveKey: f"{a}/{b}"
+    for cls, name, prefix in (("ElectrumV2Standard", "electrum_v2_std", "m/"), ("ElectrumV2Segwit", "electrum_v2_segwit", "")):
+        sh = _fstring_shape(EL2, cls, "__DeriveKey")
+        want = (["lit"] if prefix else []) + ["var", "lit", "var"]
+        if [k for k, _ in sh] != want:
+            fail(f"{EL2}: {cls}.__DeriveKey: unexpected f-string shape {sh}")
+        if prefix and sh[0][1] != prefix:
+            fail(f"{EL2}: {cls}.__DeriveKey: path prefix {sh[0][1]!r} is not {prefix!r}")
+        vs = [v for k, v in sh if k == "var"]
+        sep = [v for k, v in sh if k == "lit"][-1]
+        if sep != "/" or set(vs) != {"addr_idx", "change_idx"}:
+            fail(f"{EL2}: {cls}.__DeriveKey: unexpected path f-string {sh}")
+        out.append("Definition %s_change_first : bool := %s." % (name, "true" if vs[0] == "change_idx" else "false"))
+    # ElectrumV2Segwit.__init__: bip32.DerivePath("m/0'")
+    fn = find_func(EL2, "ElectrumV2Segwit", "__init__")
+    lits = [n.args[0].value for n in ast.walk(fn)
+            if isinstance(n, ast.Call) and isinstance(n.func, ast.Attribute) and n.func.attr == "DerivePath"
+            and n.args and isinstance(n.args[0], ast.Constant)]
+    if len(lits) != 1:
+        fail(f"{EL2}: ElectrumV2Segwit.__init__: expected one DerivePath(<literal>)")
+    import re
+    m = re.fullmatch(r"m/(\d+)(['hHpP]?)", lits[0])
+    if not m:
+        fail(f"{EL2}: ElectrumV2Segwit.__init__: unsupported account path {lits[0]!r}")
+    idx = int(m.group(1)) + (2**31 if m.group(2) else 0)
+    out.append("Definition electrum_v2_segwit_acc_index : N := %d." % idx)
+    # brainwallet: enum -> algorithm class mapping must be the expected one
+    from bip_utils.brainwallet.brainwallet_algo_getter import BrainwalletAlgoGetterConst
+    got = {k.name: v.__name__ for k, v in BrainwalletAlgoGetterConst.ENUM_TO_ALGO.items()}
+    want = {"SHA256": "BrainwalletAlgoSha256", "DOUBLE_SHA256": "BrainwalletAlgoDoubleSha256",
+            "PBKDF2_HMAC_SHA512": "BrainwalletAlgoPbkdf2HmacSha512", "SCRYPT": "BrainwalletAlgoScrypt"}
+    if got != want:
+        fail(f"brainwallet algorithm mapping changed: {got}")
+    return out
+
+
+EXTRA.append(_electrum_consts)
